@@ -142,10 +142,11 @@ Proof.
     cbn [e_store e_op e_key e_rc ev get_store] in Hx. rewrite Hg in Hx.
     destruct ((1 <=? orc o) && orc_eqb (Some (orc o - 1)) (orc o - 1)); inversion Hx; reflexivity. }
   destruct (orc o - 1 =? 0) eqn:Ez; [|exact He0].
-  pose proof (resolve_refs_passive (up id) m1) as Hp.
-  destruct (resolve_refs m1 (up id)) as [refs e1]. cbn [snd] in Hp.
+  set (raws := if oclosed o then up id else []).
+  pose proof (resolve_refs_passive raws m1) as Hp.
+  destruct (resolve_refs m1 raws) as [refs e1]. cbn [snd] in Hp.
   destruct (drop_refs (drop_closure fuel up) m1 refs
-              ([mkEv SH (EMark 0) id (Some 0); ev SC ERelease id (Some (orc o - 1))] ++ ref_events (up id) ++ e1))
+              ([mkEv SH (EMark 0) id (Some 0); ev SC ERelease id (Some (orc o - 1))] ++ ref_events raws ++ e1))
     as [[m4 e4]| |] eqn:Hd; cbn [tracks]; try exact I.
   eapply T_app.
   - eapply T_drop_refs; [intros; apply IH| |exact Hd].
@@ -169,7 +170,7 @@ Proof.
     apply T_cons_passive; [exact I|]. eapply T_app; [exact H1|]. eapply T_heap_release_ev; eauto. }
   destruct mc as [c|].
   - destruct (sm_get (m_cl m) c) as [co|] eqn:Hc; [|exact I].
-    destruct (oclosed co).
+    destruct (oclosed co && negb match sm_get (m_hp m) hk with Some o => orc o =? 1 | None => false end).
     + apply Hafter. apply T_passive. apply use_closure_passive.
     + pose proof (tracks_drop_closure fuel up m c) as Hd.
       destruct (drop_closure fuel up m c) as [[m1 e1]| |]; try exact I. cbn [tracks] in Hd.
